@@ -65,13 +65,12 @@ def GENERATED(ctx):
 
 # ---------------------------------------------------------------- implementation adapter
 
-_stack = None
+_stacks = {}
 
 
-def stack():
-    """a real AnnexJCodec between two capturing stubs"""
-    global _stack
-    if _stack is None:
+def stack(which=0):
+    """a real AnnexJCodec between two capturing stubs (two independent ones exist)"""
+    if which not in _stacks:
         from bacpypes.comm import Client, Server, bind
         from bacpypes.bvllservice import AnnexJCodec
 
@@ -88,8 +87,8 @@ def stack():
                 self.got = pdu
         u, c, l = Upper(), AnnexJCodec(), Lower()
         bind(u, c, l)
-        _stack = (u, c, l)
-    return _stack
+        _stacks[which] = (u, c, l)
+    return _stacks[which]
 
 
 def mk_ip(hexaddr, mask=None):
@@ -184,7 +183,7 @@ def impl(case):
             bv.decode(PDU(bytes.fromhex(case["hex"])))
             return {"r": "ok", "fn": bv.bvlciFunction, "len": bv.bvlciLength, "data": bytes(bv.pduData).hex()}
         if op == "cdec":
-            u, c, l = stack()
+            u, c, l = stack(case.get("codec", 0))
             u.got = None
             try:
                 l.response(PDU(bytes.fromhex(case["hex"]), source=Address(("10.1.2.3", 47808))))
@@ -596,6 +595,238 @@ def service_stream(ctx, rng):
     vt.reset()
 
 
+# ---------------------------------------------------------------- histories: state left behind, object reuse, aliasing
+
+class Probe:
+    """stands in for ctx while one step of a history is judged"""
+
+    def __init__(self):
+        self.failures = []
+
+    def fail(self, kind, case, what, **fields):
+        self.failures.append((kind, what))
+
+
+def set_params(o, m):
+    """give an EXISTING message object the parameters of m, the way code that
+    re-uses a message would: attributes reassigned, payload patched in place
+    when the size allows"""
+    from bacpypes import bvll as B
+    code = m[0]
+
+    def payload(hexs):
+        data = bytes.fromhex(hexs)
+        if len(o.pduData) == len(data):
+            o.pduData[:] = data
+        else:
+            o.pduData = bytearray(data)
+    if code == 0x00:
+        o.bvlciResultCode = m[1]
+    elif code == 0x05:
+        o.bvlciTimeToLive = m[1]
+    elif code in (0x01, 0x03):
+        o.bvlciBDT[:] = [mk_ip(a, mask) for a, mask in m[1]]
+    elif code == 0x04:
+        o.bvlciAddress = mk_ip(m[1])
+        payload(m[2])
+    elif code == 0x07:
+        tbl = []
+        for a, ttl, rem in m[1]:
+            e = B.FDTEntry()
+            e.fdAddress, e.fdTTL, e.fdRemain = mk_ip(a), ttl, rem
+            tbl.append(e)
+        o.bvlciFDT[:] = tbl
+    elif code == 0x08:
+        o.bvlciAddress = mk_ip(m[1])
+    elif code in (0x09, 0x0A, 0x0B):
+        payload(m[1])
+
+
+def hist_send(st, slots, probe):
+    """one `send` / `loop` step: a message object — a fresh one, or the one kept
+    in the slot with its fields changed — goes down through a REAL AnnexJCodec.
+    Returns (stateless model case, reply).  `loop` first runs the two-stage
+    encoding by hand and decodes the intermediate BVLPDU again (loopback) and
+    checks that nobody's buffer is anybody else's."""
+    from bacpypes.bvll import BVLPDU
+    from bacpypes.pdu import PDU, Address
+    m, slot = st["m"], st.get("slot")
+    o = slots.get((slot, m[0])) if slot is not None else None
+    if o is None:
+        o = mk_msg(m)
+        if slot is not None:
+            slots[(slot, m[0])] = o
+    else:
+        set_params(o, m)
+        if not st.get("stale") and msg_in_domain(m):
+            o.bvlciLength = len(spec_frame(m))       # what a careful caller does after changing a table
+    if st.get("force_len") is not None:
+        o.bvlciLength = st["force_len"]
+    case = {"op": "enc", "m": m, "len": o.bvlciLength}
+    try:
+        if st["op"] == "loop":
+            bv = BVLPDU()
+            o.encode(bv)                              # stage one
+            shared = bv.pduData is o.pduData
+            echo = type(o)()
+            echo.decode(bv)                           # loopback: consumes the intermediate BVLPDU
+            if msg_in_domain(m) and jmsg(echo) != m:
+                probe.fail("roundtrip", None, "decode(encode(msg)) at BVLPDU level = %s" % (core.canon(jmsg(echo))[:200],))
+            shared = shared or echo.pduData is o.pduData or echo.pduData is bv.pduData
+            if jmsg(o) != m:
+                probe.fail("aliasing", None, "decoding the intermediate BVLPDU changed the ORIGINAL message to %s" % (core.canon(jmsg(o))[:200],))
+            echo.pduData += b"\xee"                   # the copy is the receiver's to change
+            if echo.pduData:
+                echo.pduData[0] ^= 0xFF
+            bv2 = BVLPDU()
+            o.encode(bv2)
+            pdu = PDU()
+            bv2.encode(pdu)                           # stage two
+            shared = shared or pdu.pduData is bv2.pduData or pdu.pduData is o.pduData or bv2.pduData is o.pduData
+            bv2.pduData += b"\xdd"
+            del pdu.pduData[:]
+            if shared:
+                probe.fail("aliasing", None, "message, intermediate BVLPDU, PDU or decoded copy share a pduData buffer")
+            elif jmsg(o) != m:
+                probe.fail("aliasing", None, "changing the intermediate PDUs / the decoded copy changed the ORIGINAL message to %s" % (core.canon(jmsg(o))[:200],))
+        u, c, l = stack(st.get("codec", 0))
+        l.got = None
+        o.pduDestination = Address(("10.1.2.%d" % (len(slots) % 250 + 1), 47808))
+        u.request(o)
+        if l.got is None:
+            return case, {"r": "nothing-sent"}
+        hexs = bytes(l.got.pduData).hex()
+        if l.got.pduData is o.pduData:
+            probe.fail("aliasing", None, "the datagram PDU shares its buffer with the message")
+        del l.got.pduData[:]                          # the director consumes the datagram
+        if jmsg(o) != m:
+            probe.fail("aliasing", None, "after sending, the message reads %s" % (core.canon(jmsg(o))[:200],))
+        return case, {"r": "ok", "hex": hexs}
+    except Exception as e:
+        return case, err_reply(e, ("python:ValueError", "python:TypeError"))
+
+
+def exec_history(steps):
+    """run the steps in order in THIS process; [(stateless case, reply, [(kind, what)])]"""
+    slots, out = {}, []
+    for st in steps:
+        probe, reuse = Probe(), Probe()
+        if st["op"] in ("send", "loop"):
+            case, reply = hist_send(st, slots, reuse)
+        else:
+            case = dict(st)
+            reply = impl(case)
+        oracle(probe, case, reply)                    # frame == Annex J layout of the CURRENT fields, round trip
+        alias = [f for f in reuse.failures if f[0] == "aliasing"]
+        out.append((case, reply, alias + probe.failures + [f for f in reuse.failures if f[0] != "aliasing"]))
+    return out
+
+
+def shrink_history(steps, i):
+    def fails(cand):
+        return bool(exec_history(cand)[-1][2])
+    for j in range(i - 1, max(-1, i - 10), -1):
+        if fails([steps[j], steps[i]]):
+            return [steps[j], steps[i]]
+    if fails([steps[i]]):
+        return [steps[i]]
+    if fails(steps[max(0, i - 10):i + 1]):
+        return steps[max(0, i - 10):i + 1]
+    return steps[:i + 1]
+
+
+def run_histories(ctx, stream, histories):
+    cases, replies = [], []
+    for steps in histories:
+        reported = False
+        for i, (case, reply, fails) in enumerate(exec_history(steps)):
+            cases.append(case)
+            replies.append(reply)
+            if fails and not reported:
+                reported = True
+                small = shrink_history(steps, i)
+                kind, what = fails[0]
+                ctx.fail(kind, {"op": "history", "steps": small},
+                         "last step (%s) of this history, run in one process: %s" % (steps[i]["op"], what), op="history")
+    if ctx.model_ok and cases:
+        b = core.Driver("drv_c09").ask(cases)
+        keep = lambda r, a: {k: v for k, v in r.items() if k in a or k in ("r", "k")}
+        b = [keep(r, a) for r, a in zip(b, replies)]
+        ctx.compare_stream(stream, cases, replies, b, sig=sig)
+    else:
+        for c in cases:
+            ctx.count(stream)
+    for h in histories[:2]:
+        ctx.sample({"stream": stream, "history": [short_case(c) for c in h[:4]]})
+
+
+def gen_histories(ctx, rng):
+    """message objects sent, looped back, changed and sent again through the
+    same and another codec; refused sends and refused datagrams in between"""
+    pay = lambda n: rnd(rng, n)
+    hs = []
+    # the NPDU-carrying functions: send, loop back, send again; then re-use with new fields
+    for code in (0x04, 0x09, 0x0A, 0x0B):
+        for n in (0, 1, 8, 14, 480):
+            mk = (lambda n_: [code, ipaddr(rng), pay(n_)]) if code == 0x04 else (lambda n_: [code, pay(n_)])
+            m1, m2, m3 = mk(n), mk(n), mk(n + 2)
+            hs.append([{"op": "send", "m": m1, "slot": 0}, {"op": "loop", "m": m1, "slot": 0}, {"op": "send", "m": m1, "slot": 0}])
+            hs.append([{"op": "send", "m": m1, "slot": 0}, {"op": "send", "m": m1, "slot": 0, "codec": 1},
+                       {"op": "send", "m": m2, "slot": 0}, {"op": "send", "m": m2, "slot": 0, "codec": 1},
+                       {"op": "send", "m": m3, "slot": 0}, {"op": "loop", "m": m3, "slot": 0}, {"op": "send", "m": m1, "slot": 0}])
+            if code == 0x04:
+                same_npdu = [code, ipaddr(rng), m1[2]]
+                hs.append([{"op": "send", "m": m1, "slot": 0}, {"op": "send", "m": same_npdu, "slot": 0},
+                           {"op": "send", "m": [code, "00000000ffff", m1[2]], "slot": 0}])
+    # every other function: re-use with changed parameters / table sizes, careful and stale
+    others = [lambda: [0x00, rng.choice([0, 0x30, 65535])], lambda: [0x01, bdt(rng, rng.choice([0, 1, 3]))], lambda: [0x02],
+              lambda: [0x03, bdt(rng, rng.choice([0, 2, 5]))], lambda: [0x05, rng.choice(TTLS)], lambda: [0x06],
+              lambda: [0x07, fdt(rng, rng.choice([0, 1, 4]))], lambda: [0x08, ipaddr(rng)]]
+    for mk in others:
+        for _ in range(3):
+            a, b, c = mk(), mk(), mk()
+            hs.append([{"op": "send", "m": a, "slot": 1}, {"op": "send", "m": b, "slot": 1}, {"op": "loop", "m": b, "slot": 1},
+                       {"op": "send", "m": c, "slot": 1, "stale": True}, {"op": "send", "m": c, "slot": 1},
+                       {"op": "send", "m": a, "slot": 1, "codec": 1}])
+    # refused sends (wrong stored length, values that cannot be written) and refused datagrams, then valid traffic
+    refused = [{"op": "send", "m": [0x00, 7], "force_len": 4}, {"op": "send", "m": [0x01, bdt(rng, 2)], "force_len": 14},
+               {"op": "send", "m": [0x07, fdt(rng, 1)], "force_len": 4}, {"op": "send", "m": [0x08, "0a0b"]},
+               {"op": "send", "m": [0x04, "0a", "0102"]}, {"op": "send", "m": [0x03, [["c0a80001bac0ff", 0]]]},
+               {"op": "cdec", "hex": "810a0005"}, {"op": "cdec", "hex": "8204000a00000000bac0"}, {"op": "cdec", "hex": "810c0004"},
+               {"op": "cdec", "hex": "81040009c0a80001ba"}, {"op": "cdec", "hex": "8101000dc0a80001bac0ffffff"}, {"op": "cdec", "hex": ""}]
+    valid = [{"op": "send", "m": m} for m in ([0x0A, pay(9)], [0x0B, pay(3)], [0x09, pay(5)], [0x04, ipaddr(rng), pay(7)],
+                                               [0x00, 0], [0x05, 30], [0x03, bdt(rng, 2)], [0x07, fdt(rng, 2)], [0x02])]
+    good_frames = [spec_frame(st["m"]).hex() for st in valid]
+    for r in refused:
+        for cdc in (0, 1):
+            hs.append([dict(r, codec=cdc), dict(rng.choice(valid), codec=cdc), {"op": "cdec", "hex": rng.choice(good_frames), "codec": cdc},
+                       dict(rng.choice(valid), codec=cdc, slot=2), dict(rng.choice(valid), codec=1 - cdc)])
+    n = 120 if ctx.quick else 3000
+    for _ in range(n):
+        steps = []
+        for _k in range(rng.choice([6, 10, 16])):
+            r = rng.random()
+            if r < .15:
+                st = dict(rng.choice(refused))
+            elif r < .3:
+                st = {"op": "cdec", "hex": rng.choice(good_frames)}
+            else:
+                code = rng.choice([0x04, 0x04, 0x09, 0x0A, 0x0B, 0x01, 0x03, 0x07, 0x00, 0x08])
+                ln = rng.choice([0, 4, 4, 4, 9])
+                m = {0x04: lambda: [0x04, ipaddr(rng), pay(ln)], 0x01: lambda: [0x01, bdt(rng, rng.choice([0, 2]))],
+                     0x03: lambda: [0x03, bdt(rng, rng.choice([0, 2]))], 0x07: lambda: [0x07, fdt(rng, rng.choice([0, 2]))],
+                     0x00: lambda: [0x00, rng.choice([0, 0x60])], 0x08: lambda: [0x08, ipaddr(rng)]}.get(code, lambda: [code, pay(ln)])()
+                st = {"op": "loop" if rng.random() < .25 else "send", "m": m}
+                if rng.random() < .75:
+                    st["slot"] = rng.randrange(2)
+                if rng.random() < .1:
+                    st["stale"] = True
+            st["codec"] = rng.randrange(2)
+            steps.append(st)
+        hs.append(steps)
+    return hs
+
+
 # ---------------------------------------------------------------- generators
 
 IPS = [0, 1, 127, 128, 255]
@@ -877,11 +1108,13 @@ def run(ctx):
     rng = ctx.sub_rng("c09")
     cc = corpus_cases()
     if cc:
-        run_cases(ctx, "corpus", cc)
+        run_cases(ctx, "corpus", [c for c in cc if c["op"] != "history"])
+        run_histories(ctx, "corpus-history", [c["steps"] for c in cc if c["op"] == "history"])
     enc = gen_enc(ctx, rng)
     impl_enc = run_cases(ctx, "enc", enc)
     oracle_mutated_table(ctx, rng)
     service_stream(ctx, ctx.sub_rng("c09-service"))
+    run_histories(ctx, "history", gen_histories(ctx, ctx.sub_rng("c09-history")))
     run_cases(ctx, "cdec", gen_cdec(ctx, rng))
     frames = [bytes.fromhex(r["hex"]) for r in impl_enc if r.get("r") == "ok"]
     run_cases(ctx, "cdec-mutated", gen_mutated(ctx, rng, frames))
@@ -905,6 +1138,13 @@ def search(ctx):
     """focused failing-input search: the oracle alone over fresh, larger streams"""
     for rnd_ in range(3):
         rng = ctx.sub_rng("c09-search-%d" % rnd_)
+        model_ok, ctx.model_ok = ctx.model_ok, False
+        try:
+            run_histories(ctx, "search-history", gen_histories(ctx, rng))
+        finally:
+            ctx.model_ok = model_ok
+        if ctx.failures:
+            return
         frames = []
         for c in gen_enc(ctx, rng):
             r = impl(c)
@@ -930,6 +1170,9 @@ def replay(ctx, payload):
     case = rec.get("case")
     if not case or "op" not in case:
         raise core.Infra("nothing to replay")
+    if case["op"] == "history":
+        run_histories(ctx, "replay", [case["steps"]])
+        return
     if case["op"] == "mutated-table":
         oracle_mutated_table(ctx, ctx.sub_rng("c09"))
         return
